@@ -186,6 +186,7 @@ MUTANTS = {
         # not listed (duplicate_question_interval_5s): equivalent under the single-loss fault model: a 20 s duplicate-question window withholds later start-up queries, which needs two losses to matter (the first QU query is never suppressed)
         "browser_one_startup_query": [("_services/browser.py", "STARTUP_QUERIES = 4", "STARTUP_QUERIES = 1")],
         "d15_reverted": [("_core.py", "            if ttl is None and self.registry.async_get_info_name(info.key) is not info:", "            if False:")],
+        "d17_reverted": [("_core.py", "        if replaced is not None and replaced is not info:", "        if False:")],
         "d16_reverted": [("_listener.py", "            if protocol is not self:\n                protocol.data = None", "            if False:\n                protocol.data = None")],
         "d3_reverted": [("_core.py", "        self.out_delay_queue.async_remove_records(withdrawn)\n", ""), ("_core.py", "        self.out_queue.async_remove_records(withdrawn)\n", "")],
         "goodbye_not_processed_by_browser": [("_services/browser.py", "                    elif pointer.is_expired(now):", "                    elif False:")],
